@@ -219,6 +219,26 @@ let () =
       hex_of_bytes (encode ds)
     | _ -> "ERR")
 
+(* model LZMA2 encoder as a generator: chunk tokens  U<0|1>:<hex>   K<mode>:<propsbyte>:<sym>/<sym>/...   (sym as in lzmaenc)
+   No validity is required: the framing is produced for whatever is asked (sizes are those of the given symbols). *)
+let () =
+  reg "lzma2enc" (fun toks ->
+    let two t = match String.split_on_char ',' (String.sub t 1 (String.length t - 1)) with
+      | [x; y] -> (n_of_int (int_of_string x), n_of_int (int_of_string y)) | _ -> failwith "tok" in
+    let sym t = match t.[0] with
+      | 'L' -> SLit (n_of_int (int_of_string (String.sub t 1 (String.length t - 1))))
+      | 'M' -> let (d, l) = two t in SMatch (d, l)
+      | 'S' -> SShortRep
+      | 'R' -> let (i, l) = two t in SLongRep (i, l)
+      | _ -> failwith "tok" in
+    let cs = List.map (fun t -> match String.split_on_char ':' t with
+      | [u; hx] when u.[0] = 'U' -> KU (u.[1] = '1', bytes_of_hex hx)
+      | [k; pb; syms] when k.[0] = 'K' ->
+        KL (n_of_int (Char.code k.[1] - 48), n_of_int (int_of_string pb),
+            List.map sym (List.filter (fun x -> x <> "") (String.split_on_char '/' syms)))
+      | _ -> failwith "chunk") toks in
+    hex_of_bytes (chunks_bytes (norm (l2_init [] [])) cs @ [N0]))
+
 (* LZMA2 chunk trace: parse a raw LZMA2 stream chunk by chunk starting at [start], trace the symbols of every LZMA
    chunk with the specification decoder and rebuild the chunk list.  Returns (error, chunks, position of the end byte,
    final model state, statistics). *)
